@@ -133,7 +133,7 @@ def _c11_vm_goal(case, out):
             files[rawp] = ino
             cont.append("(%d, %d%%N)" % (ino, tag * 1024 + 420))
             ino += 1
-    fs = "(mkFS %s %s %d [] [] [])" % (_vm_list(ents, "(path * node)"), _vm_list(cont, "(nat * N)"), ino)
+    fs = "(mkFS %s %s %d [] [] [] [])" % (_vm_list(ents, "(path * node)"), _vm_list(cont, "(nat * N)"), ino)
     ops = []
     for _ in range(int(nxt())):
         k = nxt()
